@@ -14,8 +14,20 @@ from .. import formats as doc_formats
 ALLOWED_ERRORS = ("TypeError", "ValueError", "InvalidStructureErr", "IndexError", "KeyError")
 
 
+class HookRefusedAssertion(AssertionError):
+    """what a generated __validate__ hook raises when the case says it refuses with an AssertionError"""
+
+
+class HookRefusedKey(KeyError):
+    """... with a KeyError"""
+
+
 def err_name(e):
     from typedpy.commons import InvalidStructureErr
+    if isinstance(e, (HookRefusedAssertion, HookRefusedKey)):
+        # the hook's own refusal, whatever class the hook chose: the machine says ValueError for "the hook refused"; the
+        # error-class clause is about field-level rejections, atomicity must hold for every class (state comparison)
+        return "ValueError"
     if isinstance(e, InvalidStructureErr):
         return "InvalidStructureErr"
     for cls in (IndexError, KeyError, TypeError, ValueError):
@@ -170,19 +182,31 @@ def hookable(fd):
                        "mapAny", "mapOf", "tupleOf", "tuplePos") and "struct" not in json.dumps(fd)
 
 
-def install_hook(cls, hooks, ctx, need=None):
+def _head_is_min(v):
+    xs = list(v) if isinstance(v, (list, collections.deque)) else None
+    if not xs or not all(isinstance(e, int) and not isinstance(e, bool) for e in xs):
+        return True
+    return all(xs[0] <= e for e in xs[1:])
+
+
+def install_hook(cls, hooks, ctx, need=None, exc=None, head_min=None):
     """hooks: [[f, v]] - the hook raises when field f holds v; need: [[f1, f2, ..]] - it raises unless, for every
     group, at least one field of the group holds a value (set and not None)"""
     loaded = [(f, dump.load_value(v, ctx)) for f, v in hooks]
     need = need or []
+    head_min = head_min or []
+    Refuse = {"assertion": HookRefusedAssertion, "key": HookRefusedKey}.get(exc, ValueError)
 
     def __validate__(self):
         for f, v in loaded:
             if f in self.__dict__ and self.__dict__[f] == v:
-                raise ValueError(f"{f}: rejected by __validate__")
+                raise Refuse(f"{f}: rejected by __validate__")
         for group in need:
             if all(self.__dict__.get(f) is None for f in group):
-                raise ValueError(f"{group[0]}: rejected by __validate__ (one of {group} is needed)")
+                raise Refuse(f"{group[0]}: rejected by __validate__ (one of {group} is needed)")
+        for f in head_min:       # an invariant on the ORDER of the elements: the first one is the smallest
+            if not _head_is_min(self.__dict__.get(f)):
+                raise Refuse(f"{f}: rejected by __validate__ (the first element must be the smallest)")
     cls.__validate__ = __validate__
 
 
@@ -508,6 +532,21 @@ def gen_cases_ext(rng, tier, n_classes, immutable=False):
                 for _ in range(rng.randint(1, 2)):
                     clear = {"op": "setattr", "f": g, "v": None} if rng.random() < 0.6 else {"op": "delitem", "f": g}
                     ops.insert(rng.randrange(len(ops) + 1), clear)
+        # an order-dependent hook ("the first element is the smallest") on integer sequences the start instance holds in
+        # that order, with the mutators that permute (rotate, reverse, sort, insert, appendleft, slices)
+        seqs = [nm for nm, fd in case["cls"]["fields"] if fd.get("k") == "seqOf" and fd["item"].get("k") == "integer"
+                and isinstance(cur.get(nm), dict) and _wire_head_min(cur[nm]) and nm not in case["cls"].get("immFields", [])]
+        if seqs and not case["cls"].get("immutable") and rng.random() < 0.6:
+            tgt = rng.choice(seqs)
+            ext["hookHeadMin"] = [tgt]
+            skind = "deque" if dict(case["cls"]["fields"])[tgt].get("seq") == "deque" else "list"
+            for _ in range(rng.randint(2, 4)):
+                m = rng.choice(["rotate", "reverse", "appendleft", "insert"] if skind == "deque" else ["reverse", "sort", "insert", "__imul__"])
+                args = {"rotate": [rng.choice([1, -1, 2])], "reverse": [], "appendleft": [rng.choice([0, 99, -5])],
+                        "insert": [0, rng.choice([0, 99, -5])], "sort": ["neg", False], "__imul__": [2]}[m]
+                ops.insert(rng.randrange(len(ops) + 1), {"op": "call", "f": tgt, "m": m, "args": args})
+        if (ext.get("hook") or ext.get("hookNeed") or ext.get("hookHeadMin")) and rng.random() < 0.4:
+            ext["hookExc"] = rng.choice(["assertion", "key"])     # the hook refuses with a class of its own choosing
         ext["re"] = gen.re_table(case["cls"], case["kw"], ops)
         out.append(ext)
     return out
@@ -521,6 +560,54 @@ def nested_bound_now():
     if "v" not in _NB:
         _NB["v"] = wrappers.nested_bound()
     return _NB["v"]
+
+
+def _wire_head_min(v):
+    xs = v.get("l") if "l" in v else v.get("q")
+    if not xs or len(xs) < 2 or not all(isinstance(e, int) and not isinstance(e, bool) for e in xs):
+        return False
+    return all(xs[0] <= e for e in xs[1:]) and any(e != xs[0] for e in xs[1:])
+
+
+def _wire_head_min_ok(v):
+    xs = v.get("l") if "l" in v else v.get("q")
+    if not xs or not all(isinstance(e, int) and not isinstance(e, bool) for e in xs):
+        return True
+    return all(xs[0] <= e for e in xs[1:])
+
+
+def headmin_cases():
+    """directed: integer Deque / Array fields under an ORDER-dependent hook (the first element is the smallest), every
+    permuting mutator (rotate, reverse, sort with a key, insert / appendleft of a smaller element, slices, *=), with the
+    hook refusing with ValueError / an AssertionError / a KeyError of its own: a refused mutation leaves the order as it was"""
+    cases = []
+    ci = 0
+    for seq in ("deque", "list"):
+        for exc in (None, "assertion", "key"):
+            fd = {"k": "seqOf", "item": {"k": "integer"}}
+            if seq == "deque":
+                fd["seq"] = "deque"
+            cls = {"k": "struct", "name": f"HM{ci}", "required": ["a"], "addl": False, "fields": [["a", fd], ["n", {"k": "integer"}]]}
+            ci += 1
+            C.fix_accepts(cls)
+            kw = [["a", {"q" if seq == "deque" else "l": [1, 5, 3]}], ["n", 0]]
+            calls = [("reverse", []), ("insert", [0, 9]), ("insert", [0, 0]), ("__imul__", [2]), ("__setitem__", [0, 7]), ("pop", [])]
+            calls += [("rotate", [1]), ("rotate", [-1]), ("appendleft", [9]), ("popleft", [])] if seq == "deque" else \
+                [("sort", ["neg", False]), ("sort", ["", True])]
+            ops = []
+            for m, args in calls:
+                ops.append({"op": "call", "f": "a", "m": m, "args": args})
+                ops.append({"op": "setattr", "f": "n", "v": len(ops)})       # the instance stays usable
+            if seq == "list":
+                ops.append({"op": "call", "f": "a", "m": "__setitem__", "args": [{"l": [8, 2]}], "slice": [0, 2, None]})
+                ops.append({"op": "call", "f": "a", "m": "__delitem__", "args": [], "slice": [0, 1, None]})
+            ops.append({"op": "setattr", "f": "a", "v": {"q" if seq == "deque" else "l": [4, 2]}})
+            case = {"suite": "mutate", "cls": cls, "kw": kw, "ops": ops, "hookHeadMin": ["a"], "ext": True}
+            if exc:
+                case["hookExc"] = exc
+            case["re"] = gen.re_table(cls, kw, ops)
+            cases.append(case)
+    return cases
 
 
 def bound_cases():
@@ -608,8 +695,8 @@ def run_impl(case):
     if back != want:
         return {"abstraction_mismatch": {"dumped": back, "declared": want}}
     cls_actual = C.fix_accepts(dump.dump_class(cls, ctx))
-    if case.get("hook") or case.get("hookNeed"):
-        install_hook(cls, case.get("hook", []), ctx, case.get("hookNeed"))
+    if case.get("hook") or case.get("hookNeed") or case.get("hookHeadMin"):
+        install_hook(cls, case.get("hook", []), ctx, case.get("hookNeed"), case.get("hookExc"), case.get("hookHeadMin"))
     try:
         kw = {k: dump.load_value(v, ctx) for k, v in case["kw"]}
         x = cls(**kw)
@@ -655,6 +742,8 @@ def line(case, impl):
         l["nestedBound"] = case["nestedBound"]
     if case.get("hookNeed"):
         l["hookNeed"] = case["hookNeed"]
+    if case.get("hookHeadMin"):
+        l["hookHeadMin"] = case["hookHeadMin"]
     if case.get("reOverride"):
         l["reOverride"] = case["reOverride"]
     if "steps" in impl:
